@@ -21,6 +21,27 @@ ASSUMPTIONS = [
 NP = 3
 
 
+class Opaque:
+    """a payload that cannot be ordered (like a dict or a Packet): equal priorities must never make the store compare items"""
+    __slots__ = ("n",)
+
+    def __init__(self, n):
+        self.n = n
+
+    def __eq__(self, o):
+        return isinstance(o, Opaque) and o.n == self.n
+
+    def __hash__(self):
+        return hash(("Opaque", self.n))
+
+    def __repr__(self):
+        return "Opaque(%d)" % self.n
+
+
+def pkey(t):
+    return (t[0], t[1].n if isinstance(t[1], Opaque) else t[1])
+
+
 def plan(tier, seed):
     quick = tier == "quick"
     d = 5 if quick else 6
@@ -32,6 +53,14 @@ def plan(tier, seed):
     # amounts far above 2**53: the level is an exact number, not a float
     cfgs.append(dict(kind="container", cap=2 ** 53 + 1, init=2 ** 53, amounts=[1, 2 ** 53], depth=d - 1))
     cfgs.append(dict(kind="container", cap=2 ** 54, init=0, amounts=[1, 2 ** 53], depth=d - 1))
+    # amounts that are not binary fractions (0.3 - 0.1 - 0.1 < 0.1: the third get(0.1) must wait), requests with a
+    # non-positive amount (refused with ValueError, without any effect)
+    cfgs.append(dict(kind="container", cap=0.3, init=0, amounts=[0.1, 0.3], depth=d))
+    cfgs.append(dict(kind="container", cap=1, init=0.3, amounts=[0.1, 0.2], depth=d - 1))
+    cfgs.append(dict(kind="container", cap=3, init=1, amounts=[1, 2], depth=d - 1, bad=1))
+    # equal priorities with payloads that cannot be compared
+    cfgs.append(dict(kind="pstore", cap=2, depth=d - 1, opaque=1))
+    cfgs.append(dict(kind="pstore", cap=None, depth=d - 1, opaque=1))
     for cap in (1, 2, None):
         cfgs.append(dict(kind="store", cap=cap, depth=d + 1))
         cfgs.append(dict(kind="pstore", cap=cap, depth=d))
@@ -191,7 +220,7 @@ def content_of(r, kind):
     if kind == "container":
         return r.level
     if kind == "pstore":
-        return tuple(sorted((i.priority, i.item) for i in r.items))
+        return tuple(sorted(((i.priority, i.item) for i in r.items), key=pkey))
     if kind == "fstore":
         return tuple(r.items)
     return tuple(r.items)
@@ -239,6 +268,12 @@ def exec_puppets(ch, cfg, res):
                     if myreq[pid] is not None and myreq[pid][0] == rid:
                         seen[pid] = True
                 q.callbacks.append(cb)
+            elif op == "bad":
+                try:
+                    (r.put if cmd[2] == "put" else r.get)(cmd[3])
+                    res.bad("C07.noraise", tag + ":non-positive-amount-accepted", "%s(%r)" % (cmd[2], cmd[3]))
+                except ValueError:
+                    pass
             elif op == "cancel":
                 rid, q, isput = myreq[pid]
                 q.cancel()
@@ -277,10 +312,10 @@ def exec_puppets(ch, cfg, res):
         if len(g) != len(grants):
             res.bad("C07.order", tag + ":request-granted-twice", "%r" % (grants,))
             return False
-        ok = [st for st in ref.states if (st[0] if kind != "pstore" else tuple(sorted(st[0]))) == content and [q[0] for q in st[1]] == pq and [q[0] for q in st[2]] == gq and st[5] == g]
+        ok = [st for st in ref.states if (st[0] if kind != "pstore" else tuple(sorted(st[0], key=pkey))) == content and [q[0] for q in st[1]] == pq and [q[0] for q in st[2]] == gq and st[5] == g]
         if not ok:
             part = "content"
-            cands = [st for st in ref.states if (st[0] if kind != "pstore" else tuple(sorted(st[0]))) == content]
+            cands = [st for st in ref.states if (st[0] if kind != "pstore" else tuple(sorted(st[0], key=pkey))) == content]
             if cands:
                 part = "pending-requests"
                 if any([q[0] for q in st[1]] == pq and [q[0] for q in st[2]] == gq for st in cands):
@@ -293,7 +328,9 @@ def exec_puppets(ch, cfg, res):
         if kind == "container":
             puts = sum(amount[rid] for (rid, t, v) in grants if rid in amount and isput[rid])
             gets = sum(amount[rid] for (rid, t, v) in grants if rid in amount and not isput[rid])
-            if r.level != cfg.get("init", 0) + puts - gets:
+            want = cfg.get("init", 0) + puts - gets
+            # (sums of decimal amounts taken in another order differ in the last place: exact for integers only)
+            if (r.level != want) if isinstance(want, int) else (abs(r.level - want) > 1e-9):
                 res.bad("C07.conserve", tag + ":level-differs-from-init+puts-gets", "level %r init %r granted puts %r gets %r" % (r.level, cfg.get("init", 0), puts, gets))
                 return False
         else:
@@ -335,6 +372,8 @@ def exec_puppets(ch, cfg, res):
                 menu.append(("put", p, a))
             for a in cfg["amounts"]:
                 menu.append(("get", p, a))
+            if cfg.get("bad"):
+                menu += [("bad", p, "put", 0), ("bad", p, "get", -1), ("bad", p, "get", 0)]
         elif kind == "store":
             menu += [("put", p, "item"), ("get", p, None)]
         elif kind == "pstore":
@@ -386,6 +425,9 @@ def exec_puppets(ch, cfg, res):
                     env.run(until=env.now + 1)
                 continue
             p = op[1]
+            if op[0] == "bad":
+                batch.append(op)        # refused request: the reference does not move
+                continue
             if op[0] == "cancel":
                 res.nontrivial = True
                 batch.append(op)
@@ -402,7 +444,7 @@ def exec_puppets(ch, cfg, res):
                     item_of[rid] = None
                 else:
                     nitem[0] += 1
-                    x = (x, nitem[0])        # unique tag
+                    x = (x, Opaque(nitem[0]) if cfg.get("opaque") else nitem[0])        # unique tag
                     item_of[rid] = x
                 ref.op_put(rid, x, now)
             else:
